@@ -32,7 +32,7 @@ def sig_of(rec):
     if x.get("stale"):
         where = "fresh-over-partial"
     else:
-        where = "op=%s,seg=%s,resumed=%d" % (rec.get("op"), x.get("seg"), int(bool(x.get("res"))))
+        where = "op=%s,seg=%s,resumed=%d,cut=%s" % (rec.get("op"), x.get("seg"), int(bool(x.get("res"))), st.get("flavour", "-"))
     return "C09/%s/%s" % (clauses, where)
 
 
@@ -160,7 +160,7 @@ def run(ctx, prop):
                 ctx.sample({"real_run": [e for e in evs if e.get("run") == r0][:10]})
         ctx.notes["concretisation_passes"] = passes
         ctx.assumptions += [
-            "the client's stream is delivered by a scripted connection that ends (connection error) at the cut offset; the 16-byte preamble arrives in one segment (segmentation of the preamble is C02's subject), the rest in one or in random segments",
+            "the client's stream is delivered by a scripted connection that ends at the cut offset, half of the cuts with a connection error and half with a clean end of stream (FIN); the 16-byte preamble arrives in one segment (segmentation of the preamble is C02's subject), the rest in one or in random segments",
             "after a cut the reference client resumes when it sees a partial file and starts afresh when it sees none (an absent partial file with nothing received is accepted)",
             "a non-resume upload that meets a left-over partial file may replace it at any moment before its first data byte is stored (0 bytes and the old length are both accepted until then)",
             "resource/info side files are logged but not judged, except that the round-trip download compares the data fork",
